@@ -168,7 +168,7 @@ theorem unchanged_keeps_controller_partial (K : Calc R S) (hK : EqPER K) (now : 
           -- the donor is not wanted by any later rule, in particular not by `r`
           have hd := hhead c0 (by simp)
           simp only [hc0, hall c0 (by simp), Bool.not_false, Bool.and_self, Bool.not_true, Bool.false_or,
-            List.all_eq_true, Bool.not_eq_eq_eq_not] at hd
+            List.all_eq_true] at hd
           have hp : K.eq c0.rule r = false := by
             have := hd r hrmem
             simp only [Bool.and_eq_true, Bool.not_eq_true'] at this
@@ -430,6 +430,7 @@ theorem stat_reuse_keeps_statistics (K : Calc R S) (now : Nat) (new : List R) (o
 
 /-- what "the statistic" is for the three managers: the breaker's window counters, the flow controller's read statistic -/
 theorem cb_reuse_keeps_counters (r : CbRule) (st : CbSt) (now : Nat) : (cbCalc.reuse r st now).arr = st.arr := rfl
+theorem hot_reuse_keeps_counters (r : HotRule) (st : HotSt) (now : Nat) : hotCalc.reuse r st now = st := rfl
 theorem flow_reuse_keeps_stat (r : FlowRule) (st : FlowSt) (now : Nat) : (flowCalc.reuse r st now).stat = st.stat := rfl
 
 end Sentinel.C14
